@@ -25,7 +25,20 @@ KEYSETS = [
     (T.pair(T.NAT, T.pair(T.STRING, T.BOOL)), [(1, ('a', True)), (1, ('a', False)), (2, ('', True)), (0, ('z', False))]),
     (T.BYTES, [b'', b'\x00', b'\x01', b'\xff\xff']),
     (T.ADDRESS, None),
+    # comb of four leaves: which layout the hash is taken over is not fixed by the property (sequence as PACK, or the legacy
+    # nested pairs big-map hashing uses); only *consistency* is judged: the hash in the diff must be the hash pytezos
+    # itself used to look the key up on the node, and it must be one of the two layouts
+    (T.pair(T.NAT, T.STRING, T.BOOL, T.NAT), [(1, ('a', (True, 0))), (1, ('a', (False, 0))), (2, ('', (True, 5))), (0, ('z', (False, 9)))]),
 ]
+
+
+def is_wide_comb(kt):
+    return kt[0] == 'pair' and len(T.comb_types(kt)) >= 4
+
+
+def legacy_hash(k, kt):
+    from rv.model import micheline_bin as MB_
+    return P.script_expr_hash(b'\x05' + MB_.encode(P.render(k, kt, 'legacy_optimized')))
 BIG_ID = 4217
 
 
@@ -84,7 +97,10 @@ def judge(ctx, kt, onchain, literal, ops, mode):
     """mode: 'onchain' (storage holds the id; `onchain` served by the node), 'literal' (storage holds a literal map)."""
     from pytezos.michelson.repl import Interpreter
     from pytezos.rpc import RpcNode, ShellQuery
+    wide = is_wide_comb(kt)
     keyhash = {P.key_hash_of(k, kt): (k, v) for k, v in onchain}
+    if wide:
+        keyhash.update({legacy_hash(k, kt): (k, v) for k, v in onchain})     # the node answers under either layout
     lookups = []
 
     def handler(method, url, kwargs):
@@ -152,7 +168,16 @@ def judge(ctx, kt, onchain, literal, ops, mode):
         except Exception as e:
             return ctx.violation('C15|diff-key-unreadable', repr(u)[:200], case)
         ctx.count('diff_entries')
-        if u.get('key_hash') != P.key_hash_of(k, kt):
+        if wide:
+            cands = {P.key_hash_of(k, kt), legacy_hash(k, kt)}
+            if u.get('key_hash') not in cands:
+                return ctx.violation('C15|diff-key-hash|comb4', 'key %r: %s is neither layout\'s hash' % (k, u.get('key_hash')), case)
+            used = {h for _p, h in lookups if h in cands}
+            ctx.count('wide_comb_consistency_checks')
+            if used and u.get('key_hash') not in used:
+                return ctx.violation('C15|diff-key-hash-differs-from-lookup-hash|comb4',
+                                     'key %r: looked up on the node as %s, diff entry says %s' % (k, sorted(used), u.get('key_hash')), case)
+        elif u.get('key_hash') != P.key_hash_of(k, kt):
             return ctx.violation('C15|diff-key-hash|' + kt[0], 'key %r: %s, model %s' % (k, u.get('key_hash'), P.key_hash_of(k, kt)), case)
         if 'value' in u and u['value'] is not None:
             applied[repr(k)] = (k, P.parse(u['value'], VT))
@@ -200,7 +225,7 @@ def run(ctx):
                 'of the keys between on-chain content and none, for big maps referenced by id (entries served by a simulated node), '
                 'literal big maps and empty ones; random sequences <= 25 over 4 keys for 8 key types (nat, string, pair, or, option, '
                 'nested pair, bytes, address); observations, lazy diff applied to the on-chain content, key hashes and node lookups '
-                'checked; comb keys of >= 4 elements are not generated (hash layout not fixed by the property)' % maxlen)
+                'checked; for a comb key of 4 leaves only the consistency of lookup hash and diff hash is judged (layout not fixed by the property)' % maxlen)
     ctx.exhaustive = True
     i = 0
     kt, keys = KEYSETS[0]
